@@ -608,8 +608,22 @@ func (cs *chargingStation) sendResponse(response ocpp.Response, err error, reque
 	}
 }
 
+// dropStaleConclusions discards responses / errors of a previous session that Stop overtook
+// on their way to the callback routine: they would be paired with the callbacks of the new session.
+func (cs *chargingStation) dropStaleConclusions() {
+	for {
+		select {
+		case <-cs.responseHandler:
+		case <-cs.errorHandler:
+		default:
+			return
+		}
+	}
+}
+
 func (cs *chargingStation) Start(csmsUrl string) error {
 	// Start client
+	cs.dropStaleConclusions()
 	cs.stopC = make(chan struct{}, 1)
 	err := cs.client.Start(csmsUrl)
 	// Async response handler receives incoming responses/errors and triggers callbacks
@@ -621,6 +635,7 @@ func (cs *chargingStation) Start(csmsUrl string) error {
 
 func (cs *chargingStation) StartWithRetries(csmsUrl string) {
 	// Start client
+	cs.dropStaleConclusions()
 	cs.stopC = make(chan struct{}, 1)
 	cs.client.StartWithRetries(csmsUrl)
 	// Async response handler receives incoming responses/errors and triggers callbacks
